@@ -184,6 +184,41 @@ CHECK_DEADLOCK FALSE
                     break
             n_hist += 1
             ctx.count_distinct((core_key, tuple(seq)))
+        # registrations and dispatches interleaved: a task is dispatched when only the first i registrations exist, the rest is
+        # registered afterwards, and every key is dispatched again - what was resolved for the earlier task must not stick
+        if regs and len(regs) <= 3:
+            for i_split in range(len(regs)):
+                for k0 in keys:
+                    calls = []
+                    cl = make_client(client_mod, methods, calls)
+
+                    def do_reg(i, rg_):
+                        def fn(task, h=rg_["h"]):
+                            calls.append(h)
+
+                        cmd = None if rg_["key"] == NONE else rg_["key"]
+                        if rg_["key"] == ALL:
+                            (cl.catch_all()(fn) if i % 2 else cl.register_task(-1, fn))
+                        elif i % 2:
+                            cl.handle(cmd)(fn)
+                        else:
+                            cl.register_task(cmd, fn)
+
+                    for i, rg_ in enumerate(regs[:i_split]):
+                        do_reg(i, rg_)
+                    core.guarded(dispatch, client_mod, c2, cl, k0, seconds=20)
+                    for i, rg_ in enumerate(regs[i_split:], i_split):
+                        do_reg(i, rg_)
+                    for k in keys:
+                        del calls[:]
+                        o = core.guarded(dispatch, client_mod, c2, cl, k, seconds=20)
+                        ctx.evaluations += 1
+                        if o[0] != "ok" or calls != exp[k]:
+                            ctx.violation("a task was not dispatched to exactly the handlers Client.tla expects",
+                                          {"op": "dispatch", "failed": "calls_after_late_registration", "after_earlier_dispatch": True},
+                                          {"registry": reg, "methods": methods, "dispatched_before_registration": [k0, i_split], "key": k, "got": list(calls) if o[0] == "ok" else o, "expected": exp[k]})
+                            break
+                    n_hist += 1
     ctx.traces += n_hist
     ctx.notes["graph"] = {"nodes": len(g.nodes), "registry_states": len(seen), "dispatch_histories_replayed": n_hist}
     ctx.sample({"registry_state": {"reg": reg, "methods": methods}, "expected_per_key": exp})
